@@ -8,3 +8,6 @@ for _p in props_sched.PROPS:
 import props_values
 for _p in ('C07', 'C09', 'C15'):
     REGISTRY[_p] = props_values.run
+
+import props_paths
+REGISTRY['C18'] = props_paths.run
